@@ -452,7 +452,7 @@ func (m *Mux) serveHTTP(w http.ResponseWriter, r *http.Request) error {
 				Client:    false,
 				BeginTime: beginTime,
 				EndTime:   endTime,
-				Error:     err,
+				Error:     herr,
 			})
 		}
 		return nil
